@@ -210,6 +210,15 @@ Theorem C19_uniform_quadratic_error a s f M tau : (0 < s)%R -> (0 <= tau <= 2)%R
   (Rabs (interp [a; a + s; a + 2 * s]%R f (a + s * tau) - f (a + s * tau)) <= (1 + 5 / 4) * (M * (a + 2 * s - a) ^ 3 / INR (fact 3)))%R.
 Proof. exact (uniform_quadratic_error a s f M tau). Qed.
 Print Assumptions C19_uniform_quadratic_error.
+(* refinement of linear grids converges uniformly; the mesh width is explicit in the proof: min(1, eps/(M+1)) *)
+Theorem C19_linear_grid_converges f M eps : (0 <= M)%R -> (0 < eps)%R -> exists delta, (0 < delta)%R /\
+  forall ns t, sorted ns -> 1 < length ns ->
+  (forall w, (nth 0 ns 0 <= w <= nth (length ns - 1) ns 0)%R -> forall k, k <= 2 -> ex_derive_n f k w) ->
+  (forall w, (nth 0 ns 0 < w < nth (length ns - 1) ns 0)%R -> (Rabs (Derive_n f 2 w) <= M)%R) ->
+  (forall i, i + 1 < length ns -> (nth (S i) ns 0 - nth i ns 0 <= delta)%R) ->
+  (nth 0 ns 0 <= t <= nth (length ns - 1) ns 0)%R -> (Rabs (Iglobal ns 1 f t - f t) <= eps)%R.
+Proof. exact (linear_grid_converges f M eps). Qed.
+Print Assumptions C19_linear_grid_converges.
 Example C19_linear_grid_example t : (1 / 4 <= t <= 1)%R -> (Rabs (Iglobal gex 1 exp t - exp t) <= 3 * (1 / 2) ^ 2)%R.
 Proof. exact (linear_grid_example t). Qed.
 
